@@ -569,6 +569,12 @@ def check_grains(case, rec=None):
                                       (what, i, attr, getattr(w, attr, None), getattr(r, attr, None)), route="h5",
                                       attr=attr))
                     return
+    if len(case) % 2 == 0:
+        # HDF5 strings are UTF-8: phase labels with Greek letters, accents, a degree sign or CJK characters
+        gl = build_grains(case)
+        for k, g_ in enumerate(gl):
+            if getattr(g_, "name", None):
+                g_.name = g_.name.strip() + ["_\u03b1", "_\u00e9t\u00e9", "_45\u00b0", "_\u4e2d\u6587"][k % 4]
     ok, e = guard(grain.write_grain_file_h5, fh, gl)
     if not ok:
         fails.append(exc_failure("write_grain_file_h5", e))
